@@ -30,3 +30,18 @@ Example C08_example :
   strip ([27; 91; 51; 49; 109; 45; 27; 91; 109] ++ [27; 91; 51; 49; 109] ++ [97; 195; 169; 230; 151; 165] ++ [27; 91; 109])
   = [45; 97; 195; 169; 230; 151; 165].
 Proof. vm_compute. reflexivity. Qed.
+
+(* CRLF files: git's colouring separates the carriage return from the line feed.  The clean-up in
+   ingest_line_utf8 has the shape Ingest.v models (pinned from the source on every run) ... *)
+From DV Require Import Ingest IngestFacts GenIngest.
+
+Theorem C08_cr_cleanup_is_modelled : cr_cleanup_is_modelled = true.
+Proof. reflexivity. Qed.
+
+(* ... and under it a line whose carriage return is followed by any number of SGR sequences (ESC[m,
+   ESC[0m, a double reset, the reset of a whitespace-error highlight ...) is ingested as the same
+   line without the carriage return — exactly what is read when the diff is not coloured *)
+Theorem C08_coloured_crlf_is_plain : forall body pss,
+  forallb (forallb is_param) pss = true ->
+  drop_cr nothing_visible (body ++ Ingest.CR :: concat (map sgr_bytes pss)) = body ++ concat (map sgr_bytes pss).
+Proof. exact coloured_crlf_is_plain. Qed.
